@@ -140,11 +140,17 @@ def real_line(data, extra=None):
 
 def first_diff(a, b):
     """first differing token of two canonical lines (for a readable report)"""
-    ta, tb = re.split(r"([ |\[\]])", a), re.split(r"([ |\[\]])", b)
-    for i, (x, y) in enumerate(zip(ta, tb)):
-        if x != y:
-            return x[:400], y[:400]
-    return a[-200:], b[-200:]
+    if a.startswith("err") or b.startswith("err"):
+        return a[:120], b[:120]
+    for pat in (r"([ |\[\]])", r"([;()])", r"(/)"):
+        ta, tb = re.split(pat, a), re.split(pat, b)
+        for x, y in zip(ta, tb):
+            if x != y:
+                a, b = x, y
+                break
+        else:
+            return a[-300:], b[-300:]     # one is a prefix of the other
+    return a[:400], b[:400]
 
 
 def check_model(ck, model, origin, reqs, real, cases):
@@ -303,7 +309,7 @@ def run(ck: Check):
     # corpus first
     for origin, model in [("witness:key-collision", M.WITNESS_KEY_COLLISION)] + load_corpus():
         check_model(ck, model, origin, reqs, real, cases)
-    n = 700 if ck.quick else 30000
+    n = 2000 if ck.quick else 60000
     for i in range(n):
         model = M.gen_model(ck.rng)
         data, b, ok = check_model(ck, model, "random:%d" % i, reqs, real, cases)
